@@ -56,17 +56,18 @@ Proof.
   pose proof (conv_same_values _ _ _ _ _ _ Hwf H2) as P2.
   destruct (conv_setup _ _ _ _ _ _ Hwf H1)
     as (st1 & st2 & i0 & col & S & T & V & r & c & Hd & Hwf1 & Ha & Hfi2 & Hord & Hperm & HS & HT & HV & Hlen & Hrc
-        & Hi0 & Hcol & Hfpv & Hg0 & HA0 & Hd0 & Hre & Hn & _ & _ & Hdt & _).
+        & Hi0 & Hcol & Hfpv & Hg0 & HA0 & Hd0 & Hre & Hn & _ & _ & (Hgl & Hdt) & _).
   destruct (conv_setup _ _ _ _ _ _ Hwf H2)
     as (st1' & st2' & i0' & col' & S' & T' & V' & r' & c' & Hd' & Hwf1' & Ha' & Hfi2' & Hord' & Hperm' & HS' & HT' & HV' & Hlen' & Hrc'
-        & Hi0' & Hcol' & Hfpv' & Hg0' & HA0' & Hd0' & Hre' & Hn' & _ & _ & Hdt' & _).
+        & Hi0' & Hcol' & Hfpv' & Hg0' & HA0' & Hd0' & Hre' & Hn' & _ & _ & (Hgl' & Hdt') & _).
   rewrite Hd in Hd'. injection Hd' as <- Eord Esh.
   rewrite Ha in Ha'. injection Ha' as <- <- <-.
   assert (Ed0 : go_data0 o1 = go_data0 o2) by (rewrite Hd0, Hd0', Eord, Esh; reflexivity).
   assert (EA0 : go_aff0 o1 = go_aff0 o2) by congruence.
   assert (Ef : go_first o1 = go_first o2) by congruence.
   split; [exact Ed0|]. split; [exact EA0|]. split; [exact Eord|].
-  split; [rewrite P1, P2, Ed0; reflexivity|]. split; [congruence|].
+  split; [rewrite P1, P2, Ed0; reflexivity|].
+  split; [rewrite Eord in Hgl; rewrite Hgl in Hgl'; injection Hgl' as Egl; rewrite Egl in Hdt; congruence|].
   assert (Hsh0 : ashape (go_data0 o1) = grid_shape r c S T V) by (rewrite Hd0; apply stack_data_shape; assumption).
   assert (Hwf0 : wf_arr (go_data0 o1)) by (rewrite Hd0; apply stack_data_wf).
   assert (Hnd : 3 <= length (ashape (go_data0 o1))) by (rewrite Hsh0; apply grid_shape_length).
@@ -107,32 +108,117 @@ Qed.
 
 (** (d) the dtype rule *)
 Lemma hack_constants :
-  hack_bits = 16 /\ bits_stored_default = 16 /\
-  uint16_str = [117; 105; 110; 116; 49; 54]%N /\ int16_str = [105; 110; 116; 49; 54]%N.
+  hack_bits = 16 /\ bits_stored_default = 16 /\ uint16_str = dt_name DUint16 /\ int16_str = dt_name DInt16.
 Proof. repeat split. Qed.
+
+(** [result_type] depends only on the set of dtypes, and is an upper bound of each of them for the binary
+    promotion *)
+Lemma present_in l d : present l d = true <-> In d l.
+Proof.
+  unfold present. rewrite existsb_exists. split.
+  - intros (x & Hx & E). destruct d, x; try discriminate; exact Hx.
+  - intros H. exists d. split; [exact H | destruct d; reflexivity].
+Qed.
+
+Lemma present_ext l l' : (forall d, In d l <-> In d l') -> forall d, present l d = present l' d.
+Proof.
+  intros H d. destruct (present l d) eqn:E1, (present l' d) eqn:E2; try reflexivity.
+  - apply present_in, H, present_in in E1. congruence.
+  - apply present_in, H, present_in in E2. congruence.
+Qed.
+
+Lemma result_type_set l l' : (forall d, In d l <-> In d l') -> result_type l = result_type l'.
+Proof. intros H. unfold result_type. rewrite !(present_ext l l' H). reflexivity. Qed.
+
+Lemma rt7_upper i8 u8 i16 u16 i32 f32 f64 d :
+  (match d with DInt8 => i8 | DUint8 => u8 | DInt16 => i16 | DUint16 => u16 | DInt32 => i32
+              | DFloat32 => f32 | DFloat64 => f64 end) = true ->
+  promote d (rt7 i8 u8 i16 u16 i32 f32 f64) = rt7 i8 u8 i16 u16 i32 f32 f64.
+Proof.
+  destruct i8, u8, i16, u16, i32, f32, f64, d; intros H; try discriminate H; reflexivity.
+Qed.
+
+Lemma result_type_upper l d : In d l -> promote d (result_type l) = result_type l.
+Proof.
+  intros H. apply present_in in H. unfold result_type. apply rt7_upper. destruct d; exact H.
+Qed.
+
+Lemma promote_laws :
+  (forall a b, promote a b = promote b a) /\ (forall a, promote a a = a) /\
+  (forall a b, promote a (promote a b) = promote a b).
+Proof.
+  split; [|split].
+  - intros a b. destruct a, b; reflexivity.
+  - intros a. destruct a; reflexivity.
+  - intros a b. destruct a, b; reflexivity.
+Qed.
+
+Lemma fold_max_ge l : forall a, a <= fold_left Nat.max l a.
+Proof.
+  induction l as [|y l IH]; intros a; cbn [fold_left]; [lia|].
+  transitivity (Nat.max a y); [lia | apply IH].
+Qed.
+
+Lemma fold_max_upper l : forall a x, In x (a :: l) -> x <= fold_left Nat.max l a.
+Proof.
+  induction l as [|y l IH]; intros a x Hin; cbn [fold_left].
+  - destruct Hin as [E|[]]. lia.
+  - destruct Hin as [E|[E|Hin]].
+    + subst x. transitivity (Nat.max a y); [lia | apply fold_max_ge].
+    + subst x. transitivity (Nat.max a y); [lia | apply fold_max_ge].
+    + apply IH. right. exact Hin.
+Qed.
+
+Lemma dt_name_inj a b : dt_name a = dt_name b -> a = b.
+Proof. destruct a, b; intros H; try reflexivity; discriminate H. Qed.
+
+Lemma gfiles_of_nth gs ord gl :
+  gfiles_of gs ord = Ok gl -> length gl = length ord /\ forall k, k < length ord -> nth_error gl k = file_at gs ord k.
+Proof.
+  unfold gfiles_of, file_at. revert gl. induction ord as [|id ord IH]; intros gl; cbn [mapM].
+  - intros H. injection H as <-. split; [reflexivity|]. intros k Hk. cbn in Hk. lia.
+  - destruct (glookup gs id) as [g|] eqn:Eg; [|discriminate].
+    destruct (mapM _ ord) as [gr|e]; [|discriminate]. intros H. injection H as <-.
+    destruct (IH gr eq_refl) as [Hl Hn]. split; [cbn [length]; lia|].
+    intros [|k] Hk; cbn [nth_error]; [symmetry; exact Eg|]. apply Hn. cbn [length] in Hk. lia.
+Qed.
 
 Theorem conv_dtype gs st code embed st' go :
   wf st -> conv_geom gs st code embed = (st', Ok go) ->
-  file_at gs (go_ord0 go) 0 = Some (go_first go) /\
-  go_dtype go = (if g_unsigned16 (go_first go) && (bits_stored_of (go_first go) <? 16)
-                 then int16_str else g_dtype (go_first go)) /\
-  (go_dtype go = int16_str <->
-   (g_dtype (go_first go) = uint16_str /\ bits_stored_of (go_first go) < 16) \/ g_dtype (go_first go) = int16_str).
+  (* [go_files] are the files of the stack, in sorted order *)
+  length (go_files go) = length (go_ord0 go) /\
+  (forall k, k < length (go_ord0 go) -> nth_error (go_files go) k = file_at gs (go_ord0 go) k) /\
+  exists dl,
+    map (fun g => dt_of_name (g_dtype g)) (go_files go) = map Some dl /\ dl <> [] /\
+    let j := result_type dl in
+    let bits := fold_left Nat.max (map bits_stored_of (go_files go)) 0 in
+    (* the rule *)
+    go_dtype go = (if dt_eqb j DUint16 && (bits <? 16) then dt_name DInt16 else dt_name j) /\
+    (* [j] holds every file's dtype, [bits] bounds every file's BitsStored *)
+    (forall d, In d dl -> promote d j = j) /\
+    (forall g, In g (go_files go) -> bits_stored_of g <= bits).
 Proof.
   intros Hwf H.
-  destruct (conv_setup _ _ _ _ _ _ Hwf H)
-    as (st1 & st2 & i0 & col & S & T & V & r & c & Hd & Hwf1 & Ha & Hfi2 & Hord & Hperm & HS & HT & HV & Hlen & Hrc
-        & Hi0 & Hcol & Hfpv & Hg0 & HA0 & Hd0 & Hre & Hn & _ & _ & Hdt & _).
-  assert (Hlen0 : 0 < length (files_info st1)) by (rewrite Hlen; nia).
-  split; [rewrite Hord, file_at_ids by exact Hlen0; rewrite <- Hi0; exact Hg0|].
-  rewrite Hdt. unfold out_dtype. destruct hack_constants as (-> & _).
-  split; [reflexivity|].
-  unfold g_unsigned16.
-  destruct (str_eqb_spec (g_dtype (go_first go)) uint16_str) as [E|E]; cbn [andb].
-  - destruct (bits_stored_of (go_first go) <? 16) eqn:Eb.
-    + apply Nat.ltb_lt in Eb. split; [intros _; left; split; assumption | reflexivity].
-    + apply Nat.ltb_ge in Eb. split.
-      * intros E2. right. exact E2.
-      * intros [[_ Hlt] | E2]; [lia | exact E2].
-  - split; [intros E2; right; exact E2 | intros [[E2 _] | E2]; [contradiction | exact E2]].
+  destruct (conv_geom_ok _ _ _ _ _ _ H) as (st1 & st2 & sh & i0 & col & _ & _ & _ & _ & _ & _ & _ & (Hgl & Hdt) & _).
+  destruct (gfiles_of_nth _ _ _ Hgl) as [Hl Hn]. split; [exact Hl|]. split; [exact Hn|].
+  unfold out_dtype in Hdt.
+  destruct (mapM _ (go_files go)) as [dl|e] eqn:Em; [|discriminate].
+  assert (Hmap : map (fun g => dt_of_name (g_dtype g)) (go_files go) = map Some dl).
+  { clear - Em. revert dl Em. induction (go_files go) as [|g gl IH]; intros dl; cbn [mapM map].
+    - intros E. injection E as <-. reflexivity.
+    - destruct (dt_of_name (g_dtype g)) as [d|]; [|discriminate].
+      destruct (mapM _ gl) as [dr|e]; [|discriminate]. intros E. injection E as <-.
+      cbn [map]. f_equal. apply IH. reflexivity. }
+  destruct dl as [|d0 ds]; [discriminate|]. injection Hdt as Hdt.
+  exists (d0 :: ds). split; [exact Hmap|]. split; [discriminate|]. cbv zeta.
+  destruct hack_constants as (Hb & _ & Hu & Hi). rewrite Hb, Hu, Hi in Hdt.
+  split; [|split].
+  - rewrite <- Hdt.
+    destruct (dt_eqb (result_type (d0 :: ds)) DUint16) eqn:E.
+    + assert (E2 : result_type (d0 :: ds) = DUint16) by (destruct (result_type (d0 :: ds)); try discriminate; reflexivity).
+      rewrite E2. rewrite str_eqb_refl. reflexivity.
+    + destruct (str_eqb_spec (dt_name (result_type (d0 :: ds))) (dt_name DUint16)) as [E2|E2]; [|reflexivity].
+      apply dt_name_inj in E2. rewrite E2 in E. discriminate.
+  - intros d Hin. apply result_type_upper, Hin.
+  - intros g Hin. apply (fold_max_upper (map bits_stored_of (go_files go)) 0). right. apply in_map, Hin.
 Qed.
